@@ -1,8 +1,110 @@
-/- Driver for C07 (stub). -/
+/-
+  Driver for C07. Line = "input<TAB>implObs", see harness/props/c07/c07.go.
+
+  input  := (n (raft entry) sched)         entry := - | (raw idx)
+  sched  := ((r c) | (w c) | (e c) | (f raw) | (d) | (x c))*
+  obs    := (calls store)
+  calls  := ((c status start end reqs) …)  for c = 0..n-1
+  status := idle | pending | dead | (ok N) | (err CLASS V)
+  reqs   := ((get C) | (put I BODY ANS))*  requests Consul PROCESSED for that caller
+  store  := (raft entry)
+-/
 import ControlModel.Basic
+import ControlModel.Model.RunNumber
+import ControlModel.Spec.C07
 
 namespace Driver.C07
+open RunNumber
 
-def processLine (_line : String) : String := "UNIMPLEMENTED\t0\t-"
+def parseEntry : SExp → Option (Option Entry)
+  | .atom "-" => some none
+  | .list [.atom raw, i] => do pure (some { raw := raw.toList, idx := (← i.nat?) })
+  | _ => none
+
+def parseStore : SExp → Option Store
+  | .list [r, e] => do pure { entry := (← parseEntry e), raft := (← r.nat?) }
+  | _ => none
+
+def parseStep : SExp → Option Step
+  | .list [.atom "r", c] => do pure (.read (← c.nat?))
+  | .list [.atom "w", c] => do pure (.cas (← c.nat?))
+  | .list [.atom "e", c] => do pure (.fail (← c.nat?))
+  | .list [.atom "x", c] => do pure (.crash (← c.nat?))
+  | .list [.atom "f", .atom raw] => some (.foreign raw.toList)
+  | .list [.atom "d"] => some .del
+  | _ => none
+
+def errName : Err → String
+  | .ok => "ok" | .parse => "parse" | .cas => "cas" | .http => "http" | .exhausted => "exhausted"
+
+def optNat : Option Nat → SExp
+  | none => .atom "-"
+  | some n => .ofNat n
+
+def getReq : SExp := .list [.atom "get", .atom "1"]
+
+def callSx (c : Nat) : CState → SExp
+  | .idle => .list [.ofNat c, .atom "idle", .atom "-", .atom "-", .list []]
+  | .holding _ _ t => .list [.ofNat c, .atom "pending", .ofNat t, .atom "-", .list [getReq]]
+  | .dead t => .list [.ofNat c, .atom "dead", optNat t, .atom "-", .list (if t.isSome then [getReq] else [])]
+  | .done v e t t' q =>
+    let status := match e with
+      | .ok => SExp.list [.atom "ok", .ofNat v]
+      | e => SExp.list [.atom "err", .atom (errName e), .ofNat v]
+    let reqs := match q with
+      | none => [getReq]
+      | some i =>
+        let ans := match e with | .ok => "true" | .cas => "false" | _ => "500"
+        [getReq, .list [.atom "put", .ofNat i, .atom (String.ofList (fmtU32 v)), .atom ans]]
+    .list [.ofNat c, status, .ofNat t, .ofNat t', .list reqs]
+
+def storeSx (st : Store) : SExp :=
+  .list [.ofNat st.raft, match st.entry with
+    | none => .atom "-"
+    | some e => .list [.atom (String.ofList e.raw), .ofNat e.idx]]
+
+def obsSx (n : Nat) (s : Sys) : SExp :=
+  .list [.list ((List.range n).map fun c => callSx c (s.callers c)), storeSx s.store]
+
+/-- Read the implementation's observation back as `CallObs`. -/
+def parseCall : SExp → Option CallObs
+  | .list [c, status, t, t', .list reqs] => do
+    let ok ← match status with
+      | .list [.atom "ok", n] => do pure (some (← n.nat?))
+      | _ => pure none
+    let refused := reqs.any fun
+      | .list [.atom "put", _, _, .atom "false"] => true
+      | _ => false
+    pure { caller := (← c.nat?), ok := ok, started := t.nat?.getD 0, ended := t'.nat?.getD 0, refused := refused }
+  | _ => none
+
+def processLine (line : String) : String :=
+  match SExp.fields line with
+  | [inp, impl] =>
+    match SExp.parse inp with
+    | some (.list [n, st, .list steps]) =>
+      match n.nat?, parseStore st, steps.mapM? parseStep with
+      | some n, some st, some sched =>
+        if !(decide st.WF) then "BADINPUT\t0\t-" else
+        let p := codeProto
+        let s := run p sched (init st)
+        let model := obsSx n s
+        let fm := ForeignMonotone p sched (init st)
+        let nw := NoWrap p sched (init st)
+        let calls : Option (List CallObs) := do
+          match (← SExp.parse impl) with
+          | .list [.list cs, _] => cs.mapM? parseCall
+          | _ => none
+        let (spec, hyp) :=
+          match calls with
+          | none => (false, "-")
+          | some cs =>
+            if SpecObs fm st.level cs then (true, "-")
+            else if refusedIsErr cs && fm && !nw then (false, "uint32_wrap")
+            else (false, "-")
+        s!"{model}\t{if spec then 1 else 0}\t{hyp}"
+      | _, _, _ => "BADINPUT\t0\t-"
+    | _ => "BADINPUT\t0\t-"
+  | _ => "BADLINE\t0\t-"
 
 end Driver.C07
